@@ -94,7 +94,10 @@ impl BranchOpsTracker {
     pub fn push_chunk(&mut self, base: &BaseBranch, start: usize, end: usize) {
         assert!(self.valid_gauge);
 
-        let base_compressed_end = std::cmp::min(end, base.node.prefix_compressed() as usize);
+        // The chunk may lie entirely in the uncompressed tail of the base (`start` past the last
+        // compressed separator): then there is no compressed part to keep as a chunk.
+        let base_compressed_end =
+            std::cmp::min(end, base.node.prefix_compressed() as usize).max(start);
 
         if start != base_compressed_end {
             let chunk = KeepChunk {
